@@ -15,6 +15,8 @@ var allOps = map[string]*Op{}
 
 func regOp(o *Op) { allOps[o.Name] = o }
 
+var startWD, _ = os.Getwd()
+
 func main() {
 	prop := flag.String("prop", "", "property id")
 	tier := flag.String("tier", "quick", "quick|thorough")
